@@ -111,6 +111,103 @@ Proof.
   - intros d IN. apply (proj1 (In_sort_desc _ _)) in IN. apply H in IN. lia.
 Qed.
 
+(* ... and the lines after the last deleted line are kept too: the result is
+   (what is left of the first max_line lines) ++ additions ++ (the lines after max_line) *)
+From Coq Require Import Sorted.
+
+Definition desc := StronglySorted (fun a b : nat => b < a).
+
+Lemma insert_desc_sorted : forall x l, desc l -> ~ In x l -> desc (insert_desc x l).
+Proof.
+  intros x l. induction l as [|y r IHr]; intros S NI; cbn [insert_desc].
+  - constructor; constructor.
+  - inversion S as [|? ? Sr Fr]; subst. destruct (y <? x) eqn:E.
+    + apply Nat.ltb_lt in E. constructor; [exact S|]. constructor; [exact E|].
+      eapply Forall_impl; [|exact Fr]. cbn. intros a H. lia.
+    + apply Nat.ltb_ge in E. assert (x <> y) by (intros ->; apply NI; now left).
+      constructor.
+      * apply IHr; [exact Sr|]. intros IN. apply NI. now right.
+      * apply Forall_forall. intros a IN. apply In_insert_desc in IN. destruct IN as [->|IN]; [lia|].
+        rewrite Forall_forall in Fr. now apply Fr.
+Qed.
+
+Lemma sort_desc_sorted : forall l, NoDup l -> desc (sort_desc l).
+Proof.
+  induction l as [|x r IHr]; intros ND; [constructor|]. inversion ND; subst.
+  unfold sort_desc in *. cbn [fold_right]. apply insert_desc_sorted; [now apply IHr|].
+  intros IN. apply (proj1 (In_sort_desc _ _)) in IN. contradiction.
+Qed.
+
+Lemma sort_desc_length : forall l, length (sort_desc l) = length l.
+Proof.
+  assert (I : forall x l, length (insert_desc x l) = S (length l)).
+  { intros x l. induction l as [|y r IHr]; [reflexivity|]. cbn [insert_desc]. destruct (y <? x); cbn [length]; [reflexivity|now rewrite IHr]. }
+  induction l as [|x r IHr]; [reflexivity|]. unfold sort_desc in *. cbn [fold_right]. now rewrite I, IHr.
+Qed.
+
+Lemma del_at_app_l : forall {A} (a b : list A) i, i < length a -> del_at i (a ++ b) = del_at i a ++ b.
+Proof.
+  intros A a. induction a as [|x a IHa]; intros b i H; cbn in H; [lia|].
+  destruct i as [|i]; [reflexivity|]. cbn. f_equal. apply IHa. lia.
+Qed.
+
+Lemma del_at_length : forall {A} (a : list A) i, i < length a -> length (del_at i a) = length a - 1.
+Proof.
+  intros A a. induction a as [|x a IHa]; intros i H; cbn in H; [lia|].
+  destruct i as [|i]; cbn; [lia|]. rewrite IHa by lia. lia.
+Qed.
+
+Lemma fold_del_app : forall (ds : list nat) (a b : file),
+  desc ds -> (forall d, In d ds -> 1 <= d <= length a) ->
+  fold_left (fun ls lineno => del_at (lineno - 1) ls) ds (a ++ b)
+  = fold_left (fun ls lineno => del_at (lineno - 1) ls) ds a ++ b
+  /\ length (fold_left (fun ls lineno => del_at (lineno - 1) ls) ds a) = length a - length ds.
+Proof.
+  induction ds as [|d r IHr]; intros a b S R; cbn [fold_left length]; [split; [reflexivity|lia]|].
+  inversion S as [|? ? Sr Fr]; subst.
+  assert (Rd : 1 <= d <= length a) by (apply R; now left).
+  rewrite del_at_app_l by nlia.
+  assert (R' : forall d', In d' r -> 1 <= d' <= length (del_at (d - 1) a)).
+  { intros d' IN. rewrite del_at_length by nlia. rewrite Forall_forall in Fr. specialize (Fr d' IN).
+    specialize (R d' (or_intror IN)). nlia. }
+  destruct (IHr (del_at (d - 1) a) b Sr R') as [E L]. split; [exact E|].
+  rewrite L, del_at_length by nlia. nlia.
+Qed.
+
+Theorem apply_shape : forall change rest (f : file) adds,
+  r_add change = Some adds -> r_del change <> [] -> NoDup (r_del change) ->
+  (forall d, In d (r_del change) -> 1 <= d <= length f) ->
+  exists pre,
+    apply_changes (change :: rest) f = pre ++ adds ++ skipn (list_max (r_del change)) f
+    /\ length pre = list_max (r_del change) - length (r_del change).
+Proof.
+  intros change rest f adds HA NE ND R. unfold apply_changes. rewrite HA.
+  set (m := list_max (r_del change)).
+  assert (M : m <= length f).
+  { apply list_max_le. apply Forall_forall. intros x IN. apply R in IN. lia. }
+  assert (LF : length (firstn m f) = m) by (rewrite firstn_length; nlia).
+  destruct (fold_del_app (sort_desc (r_del change)) (firstn m f) (adds ++ skipn m f)) as [E L].
+  - apply sort_desc_sorted, ND.
+  - intros d IN. apply (proj1 (In_sort_desc _ _)) in IN. rewrite LF.
+    split; [apply R in IN; lia|]. now apply list_max_ge.
+  - rewrite E. eexists. split; [reflexivity|]. rewrite L, LF, sort_desc_length. reflexivity.
+Qed.
+
+(* the lines after the last deleted one are exactly the old ones *)
+Corollary apply_keeps_suffix : forall change rest (f : file) adds,
+  r_add change = Some adds -> r_del change <> [] -> NoDup (r_del change) ->
+  (forall d, In d (r_del change) -> 1 <= d <= length f) ->
+  skipn (list_max (r_del change) - length (r_del change) + length adds) (apply_changes (change :: rest) f)
+  = skipn (list_max (r_del change)) f.
+Proof.
+  intros change rest f adds HA NE ND R.
+  destruct (apply_shape change rest f adds HA NE ND R) as [pre [E L]]. rewrite E.
+  rewrite app_assoc. rewrite skipn_app.
+  assert (LL : length (pre ++ adds) = list_max (r_del change) - length (r_del change) + length adds)
+    by (rewrite app_length; lia).
+  rewrite <- LL. rewrite skipn_all, Nat.sub_diag. reflexivity.
+Qed.
+
 (* ------------------------------------------------------------------ *)
 (* 2. the inserted line is a comment: code lines are untouched         *)
 
